@@ -84,6 +84,9 @@ def recorder(name, beh=None):
                 return fresh
             if act[0] == 'drop':
                 return None
+            if act[0] == 'drop_path':
+                # drops only the request for one path
+                return None if (request.path or b'').split(b'?')[0].endswith(act[1]) else request
             if act[0] == 'reject':
                 status, body = act[1]
                 raise HttpRequestRejected(status_code=status, reason=b'Rejected', body=body)
